@@ -1,4 +1,5 @@
 import Qats.Lemmas.FilterMain
+import Qats.Lemmas.FilterGen
 /-!
 # C12 — frequency filters have the specified zero-phase Butterworth response in Hz
 
@@ -22,6 +23,17 @@ cut-offs normalised by `0.5/dt`) is the order-5 Butterworth-squared gain with th
 theorem response_in_hz {dt : ℝ} (hdt : dt ≠ 0) (s : Spec ℝ) (f : ℝ) :
     responseOf (design s dt) dt f = gain 5 dt s f :=
   response_in_hz' hdt s f
+
+/-- The normalised cut-offs of the modelled design are the expressions the source hands to `scipy.signal.butter` —
+`Qats.Gen.flt_*`, regenerated from `qats/signal.py` (`lowpass`, `highpass`, `bandpass`, `bandblock`) by the translator on every
+run, so an edit of `nyq` / `normal_cutoff` in the source is re-proved (or fails to be) here. -/
+theorem design_wn_is_source (s : Spec ℝ) (dt : ℝ) (hdt : dt ≠ 0) : (design s dt).wn = sourceWn s dt :=
+  design_wn_is_source' s dt hdt
+
+/-- … and those expressions are the cut-offs in Hz as fractions of the Nyquist frequency `1 / (2 dt)` of the series the filter
+is applied to (what `butter` expects of a digital design). -/
+theorem source_wn_fraction_of_nyquist (s : Spec ℝ) (dt : ℝ) (hdt : dt ≠ 0) : sourceWn s dt = fracWn s dt :=
+  sourceWn_fraction_of_nyquist' s dt hdt
 
 /-- A design made for another step `dt'` (e.g. the stored series' step after resampling) acts, on a series sampled
 with `dt`, as the filter whose cut-offs are all multiplied by `dt'/dt`. -/
@@ -212,6 +224,11 @@ theorem filter_arity (k : Kind) (freqs : List ℝ) : (∃ s, mkSpec k freqs = so
 /-- `dt = 1 s`, cut-off ¼ Hz (half of Nyquist): the hypotheses hold, `W(fc) = tan(π/4) = 1`, and the gain there is ½. -/
 example : gain 5 (1 : ℝ) (.lp (1 / 4)) (1 / 4) = 1 / 2 :=
   gain_cutoff_lp (by norm_num) 5 (by norm_num) (by rw [nyquist_real]; norm_num)
+
+/-- non-vacuity of `design_wn_is_source` / `source_wn_fraction_of_nyquist`: a band-pass request on 10 Hz data -/
+example : ((1 / 10 : ℝ) ≠ 0) ∧ fracWn (.bp (1 : ℝ) 2) (1 / 10) = [1 / 5, 2 / 5] := by
+  refine ⟨by norm_num, ?_⟩
+  simp only [fracWn, frac]; norm_num
 
 /-- The design for `lowpass(x, dt = 1/2, fc = 1/4)` and `bandblock(x, 1/2, 1/4, 1/2)`, executed exactly. -/
 example : design (.lp (1 / 4 : Rat)) (1 / 2) = ⟨5, [1 / 4], .lp, .filtfilt⟩ ∧
